@@ -200,12 +200,6 @@ Alts(s, e) ==
     [] OTHER -> {}
 
 Obs(e) == Out(e.res, e.dump.items, e.dump.unn)
-Admitted(s, e) == Obs(e) = Exp(s, e) \/ Obs(e) \in Alts(s, e)
-
-(* next abstract state *)
-Apply(s, e) ==
-  LET o == IF Obs(e) \in Alts(s, e) THEN Obs(e) ELSE Exp(s, e) IN
-  [items |-> o.items, unn |-> o.unn]
 
 (* ---- naming the violated clause ---------------------------------------- *)
 ResClause(s, e, x, o) ==
@@ -248,13 +242,21 @@ DumpFails(items, d) ==
   \cup F("Lookup.Probe", \A i \in DOMAIN d.has :
             (d.has[i][2] = 1) = (Pos(items, <<d.has[i][1], 1>>) # 0))
 
-Fails(s, e) ==
+(* verdict and next abstract state in one evaluation *)
+Judge(s, e) ==
   LET x == Exp(s, e)
-      o == Obs(e) IN
-  IF Admitted(s, e) THEN DumpFails(Apply(s, e).items, e.dump)
-  ELSE (IF o.res # x.res THEN {ResClause(s, e, x, o)} ELSE {})
-       \cup (IF o.items # x.items THEN StateClause(e, x.items, o.items) ELSE {})
-       \cup F("Unnamed.Flag", o.unn = x.unn)
+      o == Obs(e)
+      alt == o # x /\ o \in Alts(s, e)
+      nx == IF alt THEN o ELSE x IN
+  [next |-> [items |-> nx.items, unn |-> nx.unn],
+   fails |->
+     IF o = x \/ alt THEN DumpFails(nx.items, e.dump)
+     ELSE (IF o.res # x.res THEN {ResClause(s, e, x, o)} ELSE {})
+          \cup (IF o.items # x.items THEN StateClause(e, x.items, o.items)
+                ELSE {})
+          \cup F("Unnamed.Flag", o.unn = x.unn)]
+Fails(s, e) == Judge(s, e).fails
+Apply(s, e) == Judge(s, e).next
 
 (* state invariant of the reference model: casefold-unique keys *)
 FoldUnique(s) ==
